@@ -1,60 +1,74 @@
 (* helpers evaluated by the generated C15 case files (coq/Gen/Cases_C15_*.v).  A case is one history:
-   the initial universe, and for every call the outcome class observed on the real code and the
-   elements / documents whose dump changed (the harness dumps the whole object graph through getters
-   after every call and prints only the entries that differ from the previous dump).
-     model_ok   : at every step M's heap = the code's heap and M's outcome class = the code's
-     spec_ok    : S (wf_b, atomicity) accepts the code's own state at every step before the first
-                  call that is an instance of a recorded finding (trigger evaluated on the code's state)
-     strict_ok  : the same with no finding excused (tells that the findings still fire) *)
+   the initial universe, and for every call the outcome class observed on the real code, the value it
+   returned (read-only methods) and the elements / documents whose dump changed (the harness dumps the
+   whole object graph through getters after every call and prints only the entries that differ from the
+   previous dump).
+     model_ok   : at every step M's heap = the code's heap, M's outcome class = the code's and M's
+                  returned value = the code's
+     spec_ok    : S (wf_b, atomicity of rejected single-element calls) accepts the code's own state at
+                  every step
+     rep_ok     : the representation invariant (Model/HeapRep.v rep_b) holds of the code's own state
+     pca_ok     : a rejected Ruby/Rtc push_children leaves the code's state unchanged *)
 From Coq Require Import List Arith Bool.
-From TT Require Import Base.HeapTypes Model.Heap Model.HeapTriggers Spec.ModelWF.
+From TT Require Import Base.HeapTypes Model.Heap Model.HeapRep Spec.ModelWF.
 Import ListNotations.
 
-Definition stepobs := (call * nat * list (nat * node) * list (nat * docrec))%type.
+Definition stepobs := (call * nat * rval * list (nat * node) * list (nat * docrec))%type.
 Record hist := mkHist { hi_elems : list (kind * option nat * option nat) ; hi_ndocs : nat ; hi_steps : list stepobs }.
 
 Definition outcome_code (o : outcome) : nat :=
   match o with
   | OOk => 0 | ORaised ERuntime => 1 | ORaised EValue => 2 | ORaised EType => 3 | ORaised EAttr => 4
-  | ORaised EFuel => 9
+  | ORaised EIndex => 5 | ORaised EFuel => 9
   end.
+Definition exn_eq_dec (a b : exn) : {a = b} + {a <> b}. Proof. decide equality. Defined.
+Definition rval_eq_dec (a b : rval) : {a = b} + {a <> b}.
+Proof.
+  decide equality; try apply Bool.bool_dec; try apply Nat.eq_dec; try apply onat_eq_dec; try apply exn_eq_dec;
+    try (apply list_eq_dec, Nat.eq_dec). decide equality. apply sval_eq_dec.
+Defined.
+Definition rval_eqb (a b : rval) : bool := if rval_eq_dec a b then true else false.
 
 Definition put {A} (l : list A) (i : nat) (x : A) : list A := upd l i (fun _ => x).
 Definition apply_delta (h : heap) (dn : list (nat * node)) (dd : list (nat * docrec)) : heap :=
   mkHeap (fold_left (fun l e => put l (fst e) (snd e)) dn (h_nodes h))
          (fold_left (fun l e => put l (fst e) (snd e)) dd (h_docs h)).
 
-(* verdict of one history *)
+(* verdict of one history: the first step at which each judgement fails *)
 Record verdict := mkV {
-  v_model : option nat ;          (* first step where M and the code differ *)
-  v_spec : option nat ;           (* first step, before any trigger fired, where S rejects the code's state *)
-  v_strict : option nat ;         (* first step where S rejects the code's state *)
-  v_fired : list nat ;            (* findings whose trigger fired, in order *)
+  v_model : option nat ;
+  v_spec : option nat ;
+  v_rep : option nat ;
+  v_pca : option nat ;
   v_nsteps : nat }.
 
 Definition first_of (a : option nat) (i : nat) (ok : bool) : option nat :=
   match a with Some _ => a | None => if ok then None else Some i end.
+Definition ordered_push (h : heap) (c : call) : bool :=
+  match c with
+  | CPushChildren s _ => ordered_kind (kind_of h s)
+  | _ => false
+  end.
 
 Fixpoint eval_steps (i : nat) (hc : heap) (steps : list stepobs) (v : verdict) : verdict :=
   match steps with
   | [] => v
-  | (c, oc, dn, dd) :: t =>
+  | (c, oc, rv, dn, dd) :: t =>
     let '(hm', om) := step hc c in                  (* M runs from the code's state: no cascades *)
     let hc' := apply_delta hc dn dd in
-    let m_ok := heap_eqb hm' hc' && Nat.eqb (outcome_code om) oc in
-    let tr := trigger hc c in
-    let fired := match tr with Some k => v_fired v ++ [k] | None => v_fired v end in
+    let m_ok := heap_eqb hm' hc' && Nat.eqb (outcome_code om) oc &&
+                (negb (Nat.eqb oc 0) || negb (call_ok hc c) || rval_eqb (result hc c) rv) in
     let atomic_ok := negb (single_element c) || Nat.eqb oc 0 || heap_eqb hc hc' in
     let s_ok := wf_b hc' && atomic_ok in
-    let excused := match fired with [] => false | _ => true end in
+    let pca := negb (ordered_push hc c) || Nat.eqb oc 0 || heap_eqb hc hc' in
     eval_steps (S i) hc' t
-      (mkV (first_of (v_model v) i m_ok) (first_of (v_spec v) i (excused || s_ok))
-           (first_of (v_strict v) i s_ok) fired (S (v_nsteps v)))
+      (mkV (first_of (v_model v) i m_ok) (first_of (v_spec v) i s_ok) (first_of (v_rep v) i (rep_b hc'))
+           (first_of (v_pca v) i pca) (S (v_nsteps v)))
   end.
 
 Definition eval_hist (x : hist) : verdict :=
   let h0 := init (hi_elems x) (hi_ndocs x) in
-  let v0 := mkV None (if wf_b h0 then None else Some 0) (if wf_b h0 then None else Some 0) [] 0 in
+  let v0 := mkV None (if wf_b h0 then None else Some 0) (if rep_b h0 then None else Some 0) None 0 in
   eval_steps 0 h0 (hi_steps x) v0.
 
 Definition none_b (o : option nat) : bool := match o with None => true | Some _ => false end.
@@ -64,22 +78,20 @@ Definition check_all (l : list bool) : nat * list nat := (length l, bad_from 0 l
 
 Definition model_ok (vs : list verdict) := check_all (map (fun v => none_b (v_model v)) vs).
 Definition spec_ok (vs : list verdict) := check_all (map (fun v => none_b (v_spec v)) vs).
-Definition strict_ok (vs : list verdict) := check_all (map (fun v => none_b (v_strict v)) vs).
-(* for k = 1..8: number of histories in which S rejects a state and finding k's trigger had fired *)
-Definition fired_counts (vs : list verdict) : list nat :=
-  map (fun k => length (filter (fun v => negb (none_b (v_strict v)) && existsb (Nat.eqb k) (v_fired v)) vs)) (seq 1 8).
+Definition rep_ok (vs : list verdict) := check_all (map (fun v => none_b (v_rep v)) vs).
+Definition pca_ok (vs : list verdict) := check_all (map (fun v => none_b (v_pca v)) vs).
 Definition total_steps (vs : list verdict) : nat := fold_left (fun a v => a + v_nsteps v) vs 0.
 
 (* details of one history for a replay file: per step (model agrees, S clauses
-   [links; acyclic; doc; content; regions; values], atomic, trigger) *)
-Fixpoint explain_steps (hc : heap) (steps : list stepobs) : list (bool * list bool * bool * option nat * nat) :=
+   [links; acyclic; doc; content; regions; values], atomic, representation invariant, M's outcome, M's value) *)
+Fixpoint explain_steps (hc : heap) (steps : list stepobs) : list (bool * list bool * bool * bool * nat * rval) :=
   match steps with
   | [] => []
-  | (c, oc, dn, dd) :: t =>
+  | (c, oc, rv, dn, dd) :: t =>
     let '(hm', om) := step hc c in
     let hc' := apply_delta hc dn dd in
     (heap_eqb hm' hc' && Nat.eqb (outcome_code om) oc, wf_report hc',
-     negb (single_element c) || Nat.eqb oc 0 || heap_eqb hc hc', trigger hc c, outcome_code om)
+     negb (single_element c) || Nat.eqb oc 0 || heap_eqb hc hc', rep_b hc', outcome_code om, result hc c)
       :: explain_steps hc' t
   end.
 Definition explain (x : hist) := explain_steps (init (hi_elems x) (hi_ndocs x)) (hi_steps x).
@@ -93,11 +105,11 @@ Fixpoint state_before (hc : heap) (steps : list stepobs) (k : nat) : heap * opti
   match steps, k with
   | [], _ => (hc, None)
   | s :: _, O => (hc, Some s)
-  | (c, oc, dn, dd) :: t, S k' => state_before (apply_delta hc dn dd) t k'
+  | (c, oc, rv, dn, dd) :: t, S k' => state_before (apply_delta hc dn dd) t k'
   end.
 Definition diff_at (x : hist) (k : nat) :=
   match state_before (init (hi_elems x) (hi_ndocs x)) (hi_steps x) k with
-  | (hc, Some (c, oc, dn, dd)) =>
+  | (hc, Some (c, oc, rv, dn, dd)) =>
     let hm' := fst (step hc c) in let hc' := apply_delta hc dn dd in
     (diff_nodes 0 (h_nodes hm') (h_nodes hc'), h_docs hm', h_docs hc')
   | (hc, None) => ([], [], [])
